@@ -139,6 +139,12 @@ def gen_case(r, n=None, dims=(1, 1, 2, 2, 3, 4, 5), exact_only=False, spec=None,
     rr = rr if rr is not None else round(r.uniform(1.05, 6.0), 2)
     case = {"n": n, "m": m, "lim": lim, "eps": eps, "r": rr, "lower": [float(v) for v in lower],
             "upper": [float(v) for v in upper], "spec": spec, "refine": bool(refine)}
+    if all(float(v).is_integer() for v in case["lower"] + case["upper"]) and r.random() < 0.3:
+        case["int_bounds"] = r.choice(("list", "int64"))     # integer-valued box given with integer-typed bounds
+    if r.random() < 0.06:
+        case["fresh_holder"] = True     # the objective returns a NEW value holder instead of filling in the one it was given
+    if r.random() < 0.04:
+        case["discrete"] = r.choice((1, 2))   # the problem declares discrete parameters (ignored by this solver version)
     if r.random() < 0.08:
         nb = r.choice((1, 2, 3))
         blo, bhi = gen_box(r, nb)
@@ -222,7 +228,8 @@ class Run:
                 raise Runaway("objective evaluated %d times" % self.calls)
             return self.pure(pt)
         self.problem = LoggedProblem.make(guarded, self.lower, self.upper, fail_at, exc,
-                                          fresh_holder=bool(case.get("fresh_holder")))
+                                          fresh_holder=bool(case.get("fresh_holder")),
+                                          n_discrete=int(case.get("discrete", 0)), int_bounds=case.get("int_bounds"))
         self.solver = Solver(self.problem, SolverParameters(eps=case["eps"], r=case["r"], itersLimit=case["lim"],
                                                             evolventDensity=case["m"],
                                                             refineSolution=case.get("refine", False)))
